@@ -435,3 +435,28 @@ def return_cases():
         defeat = '!rv' in fsrc
         call = 'write(@rv(iv));' if you else ('try { write(!rv(iv)); } undo { }' if defeat else ('rv(iv);' if fsrc.split('rv(')[0].strip().endswith('empty') or fsrc.startswith('empty') else 'write(rv(iv));'))
         yield 'returns/' + tag, program('\n    ' + call, fsrc + '\n'), ok
+
+
+# ------------------------------------------------- no-op spellings of a provider
+def spelling_variants():
+    """the same value under a spelling that changes neither value nor static type: parentheses, and a cast of an array
+    variable to its own element type.  Acceptance in any position must not depend on the spelling (this also covers the
+    positions the documentation leaves undecided, such as `const T[] c = <mutable array variable>`).
+    yields (tag, source with the plain spelling, source with the variant)"""
+    for p in ALL:
+        variants = [('parenthesised', f'({p.text})')]
+        if isinstance(p.t, tuple) and p.lit is None and p.name != 'str_as_bytes':
+            variants.append(('cast to its own type', f'{p.text} is {p.t[1]}[]'))
+            variants.append(('parenthesised cast to its own type', f'(({p.text}) is {p.t[1]}[])'))
+        elif not isinstance(p.t, tuple) and p.t != STRING and not p.shrink:
+            variants.append(('cast to its own type', f'({p.text}) is {p.t}'))
+        for t in TYPES:
+            tn = tname(t)
+            f = f'empty take({tn} p) {{ }}\n'
+            forms = [('arg', lambda x: program(f'\n    take({x});', f)), ('decl', lambda x: program(f'\n    {tn} nv = {x};'))]
+            if not isinstance(t, tuple):
+                forms.append(('assign', lambda x: program(f'\n    {tn} tv = {DEFAULT[t]}; tv = {x};')))
+                forms.append(('return', lambda x: program('', f'{tn} retf() {{' + LOCALS + f' return {x}; }}\n')))
+            for fn, mk in forms:
+                for vn, vt in variants:
+                    yield f'{fn}/{p.name}->{tn}/{vn}', mk(p.text), mk(vt)
